@@ -45,10 +45,10 @@ Let lT := T_of W.
 Lemma u_class_wf l : class_wf nopars lT l.
 Proof. split; [constructor|]. split; [intros []|]. intros n t [<-|[]]. reflexivity. Qed.
 
-Lemma u_kid_wf c : kid_wf nopars lT [] (c, []).
+Lemma u_kid_wf c : kid_wfd nopars lT [] (c, []).
 Proof.
   split; [apply u_class_wf|]. cbn [fst snd map]. split; [constructor|].
-  split; [intros x []|]. split; [intros x []|]. intros cv [].
+  split; intros x [].
 Qed.
 
 Lemma u_cnt c n e : cnt (lT c n) e = if leqb [] e then W (Z.to_nat c) n else 0.
@@ -71,13 +71,13 @@ Proof.
   - intros k _. rewrite u_cnt_rk, Nat2Z.id. reflexivity.
 Qed.
 
-Lemma u_forall_kid_wf ks : Forall (kid_wf nopars lT (nopars 0)) (plain_kids ks).
+Lemma u_forall_kid_wf ks : Forall (kid_wfd nopars lT (nopars 0)) (plain_kids ks).
 Proof. unfold plain_kids. induction ks; simpl; constructor; auto. apply u_kid_wf. Qed.
 
 Lemma sat_union_intro c kids :
   (forall n, 0 <= n -> W c n = psum (fun k => W k n) kids) -> satisfies W c (UUnion kids).
 Proof.
-  intros H N _. cbn [to_rule rule_equation o_parent o_children o_eps].
+  intros H N _. unfold rule_equation; cbn [to_rule rule_equation_with o_parent o_children o_eps].
   pose proof (union_equation_holds nopars lT noO [0] (Z.of_nat c) (plain_kids (zl kids)) N
                 (u_class_wf _) (u_forall_kid_wf _) (u_union_genuine c kids H)) as A.
   rewrite map_fst_plain, map_snd_plain in A. unfold zl in A. rewrite noeps_map in A. exact A.
@@ -87,7 +87,7 @@ Lemma sat_complement_intro c p cs idx :
   (idx < length cs)%nat ->
   (forall n, 0 <= n -> W p n = psum (fun k => W k n) cs) -> satisfies W c (UComplement p cs idx).
 Proof.
-  intros Hidx H N _. cbn [to_rule rule_equation o_parent o_children o_eps].
+  intros Hidx H N _. unfold rule_equation; cbn [to_rule rule_equation_with o_parent o_children o_eps].
   pose proof (complement_equation_holds nopars lT noO [0] (Z.of_nat p) (zl cs) idx N
                 (conj eq_refl (fun _ _ => eq_refl)) (u_class_wf _) (fun c0 _ => u_class_wf c0)
                 (u_union_genuine p cs H) ltac:(unfold zl; rewrite map_length; exact Hidx)) as A.
